@@ -55,15 +55,24 @@ def parse_size_cons(c):
     return lo, hi, bool(m.group(3))
 
 
+def int_needs_specifics(t):
+    """INTEGER mapped to unsigned long / kept with specifics: non-negative range reaching beyond 2^31-1"""
+    return t["lo"] is not None and t["lo"] >= 0 and (t["hi"] is None or t["hi"] > 2**31 - 1)
+
+
 class WideGen:
     """same algebra and the same constant tables as widegen.WGen, but every type
     comes back as (AST, kind) and the text is rendered from the AST"""
 
-    def __init__(self, rng, maxdepth=3, features=None):
+    def __init__(self, rng, maxdepth=3, features=None, avoid_c10=True):
         self.rng = rng
         self.maxdepth = maxdepth
         self.f = set(features if features is not None else ALL_FEATURES)
         self.n = 0
+        # two constructs asn1c cannot compile (known, property C10/C12; lib/modgen.py avoids them too):
+        # an anonymous X OF directly inside an X OF (parser assertion with an inner SIZE, Member__Member structs)
+        # and a nested X OF whose anonymous INTEGER element needs its own specifics (undeclared asn_DEF_Member_N)
+        self.avoid_c10 = avoid_c10
 
     def ident(self, p="c"):
         self.n += 1
@@ -128,6 +137,12 @@ class WideGen:
         k = r.choice(ks)
         if k in ("SEQUENCE OF", "SET OF"):
             el, _ = self.ty(depth + 1, default, refs, selfname)
+            for _ in range(20):
+                if not (self.avoid_c10 and (el["k"] in ("SEQUENCE OF", "SET OF") or (el["k"] == "INTEGER" and int_needs_specifics(el)))):
+                    break
+                el, _ = self.ty(depth + 1, default, refs, selfname)
+            else:
+                el = {"k": "BOOLEAN"}
             c = r.choice(SIZE_CONS[:8])
             lo, hi, ext = parse_size_cons(c)
             return {"k": k, "cons": c, "smin": lo, "smax": hi, "sext": ext, "elem": el}, "of"
